@@ -507,6 +507,17 @@ def cfgStep (compact : String) : String :=
     let plOk := pl == "none" || bcStep pl == "ok"
     if dup || !plOk then "load=ok start=err" else "load=ok start=ok"
 
+/-- `lb wire`: what the balancer makes of a breaker configuration — rejected by validation, or
+the effective settings (`setupCircuitBreaker`: max_requests 0 means success_threshold) -/
+def wireStep (mx iv to ft st : String) : String :=
+  let c := cfgOf [("b", "s1|http://127.0.0.1:9|1"), ("port", "8080"), ("strat", "round_robin"), ("cb", "1"),
+                  ("cbm", mx), ("cbi", iv), ("cbt", to), ("cbf", ft), ("cbs", st)]
+  match Cfg.validate c with
+  | some _ => "rejected"
+  | none =>
+    let m := if c.cbMax == 0 then c.cbSuccess else c.cbMax
+    s!"eff {m} {c.cbInterval * 1000000000} {c.cbTimeout * 1000000000} {c.cbFailure} {c.cbSuccess}"
+
 def closedStr (p : Pool.State) : String :=
   let ids := p.closed.eraseDups
   let sorted := ids.foldl (fun acc x => (acc.filter (· < x)) ++ [x] ++ (acc.filter (· > x))) ([] : List Nat)
@@ -593,6 +604,17 @@ def pxStep (s : DState) : List String → DState × String
     match ids.toList with
     | [a, b] => ({ s with pxIds := (a == '1', b == '1'), pxBase := if base == "-" then "" else bytesToString (unesc base) }, "ok")
     | _ => (s, "bad-op")
+  | ["new", _strategy, ids, base, _features] =>
+    -- breaker / limiter / passive checks / logging plugin switched on with thresholds no episode
+    -- reaches: `via_transparent` does not depend on them
+    match ids.toList with
+    | [a, b] => ({ s with pxIds := (a == '1', b == '1'), pxBase := if base == "-" then "" else bytesToString (unesc base) }, "ok")
+    | _ => (s, "bad-op")
+  | ["conc", n, _len] =>
+    -- concurrent exchanges do not interact: each client reads the body the backend wrote for it
+    match n.toNat? with
+    | some k => (s, s!"conc ok {k}")
+    | none => (s, "bad-op")
   | ["close"] => (s, "ok")
   | ["x", mode, method, target, hdrs, reqlen, framing, script] =>
     match parsePxOps (script.splitOn ";"), reqlen.toNat? with
@@ -631,6 +653,7 @@ def step (s : DState) (line : String) : DState × String :=
   | ["ft", "new", _, _, _, _, _] => (s, "ok")
   | ["ft", "close"] => (s, "ok")
   | ["ft", "wait", _] => (s, "ok")
+  | ["ft", "health", _] => (s, "ok")
   | ["ft", "req", _] => (s, "ended=1")
   | ["ft", "conc", n, faults] =>
     (match n.toNat? with
@@ -650,6 +673,7 @@ def step (s : DState) (line : String) : DState × String :=
   | "adm" :: rest => admStep s rest
   | "rl" :: rest => rlStep s rest
   | "cb" :: rest => cbStep s rest
+  | ["lb", "wire", mx, iv, to, ft, st] => (s, wireStep mx iv to ft st)
   | "lb" :: rest => lbStep s rest
   | ["hash", "jump", k, n] =>
     match k.toNat?, n.toNat? with
